@@ -168,7 +168,9 @@ def handle (req : Json) : Json :=
     | "loop" => do
       let A ← tys req "A"; let R ← tys req "R"; let S ← tys req "S"
       let pinned := (req.getObjValAs? Bool "pinned").toOption.getD false
-      pure (resToJson (if pinned then inferLoopPinned A R S else inferLoop A R S))
+      let onnxOnly := (req.getObjValAs? Bool "onnx").toOption.getD false
+      pure (resToJson (if pinned then inferLoopPinned A R S else if onnxOnly then inferLoopOnnx A R S
+        else inferLoop A R S))
     | "conf" => do
       let v ← valOfJson (← req.getObjVal? "val")
       let t ← tyOfJson (← req.getObjVal? "ty")
